@@ -151,6 +151,120 @@ theorem coupled_join {s : Srv} {b : Bot} (hw : SrvWF s) (hc : Coupled s b) (n : 
       have hb' : lower n ≠ s.botKey := by simpa using hb
       exact coupled_join_others hw hc n cs hu hb'
 
+theorem view_channel' {s : Srv} {b : Bot} (hc : Coupled s b) {k : Str} {sc : SChan} (hs : aget s.chans k = some sc)
+    (hb : sc.has s.botKey = true) : ∃ ch, aget b.channels k = some ch ∧ ChanMatches sc ch := by
+  have h := hc.chans k
+  rw [hs] at h
+  cases hbc : aget b.channels k with
+  | none => rw [hbc] at h; simp only [ChanRel] at h; rw [hb] at h; cases h
+  | some ch => rw [hbc] at h; exact ⟨ch, rfl, h.2⟩
+
+/-! ### stand-alone (possibly late) replies to the MODE / MODE +b queries -/
+
+theorem bot_chan_none {s : Srv} {b : Bot} (hc : Coupled s b) {k : Str} {sc : SChan} (hsc : aget s.chans k = some sc)
+    (hb : sc.has s.botKey = false) : aget b.channels k = none := by
+  have hrel := hc.chans k
+  rw [hsc] at hrel
+  cases hbc : aget b.channels k with
+  | none => rfl
+  | some ch => rw [hbc] at hrel; simp only [ChanRel] at hrel; rw [hb] at hrel; exact absurd hrel.1 (by simp)
+
+theorem coupled_modeis {s : Srv} {b : Bot} (hw : SrvWF s) (hc : Coupled s b) (c : Str) :
+    Coupled (s.step (.modeis c)).1 (b.recvAll (s.step (.modeis c)).2) := by
+  simp only [Srv.step]
+  split
+  · rename_i sc hch
+    rw [Srv.chan_eq] at hch
+    have hcw := hw.chans _ _ hch
+    have hat : AtSrv s b := ⟨hw, hc.nick⟩
+    by_cases hb : sc.has s.botKey = true
+    · obtain ⟨ch, hbc, hm⟩ := view_channel' hc hch hb
+      simp only [recvAll_cons, recvAll_nil]
+      rw [mode_line hat hch hbc]
+      have hkey := hcw.key
+      obtain ⟨ch4, hb4, hv4⟩ := created_line (s := s)
+        (b := { b with channels := aset b.channels (lower c) { ch with modes := sc.modes.foldl (fun acc e => aset acc e.1 e.2) ch.modes } })
+        ⟨hw, hc.nick⟩ sc (by rw [hkey]; exact aget_aset_self _ _ _)
+      rw [hb4]
+      simp only [hkey, aset_aset]
+      apply coupled_of_frame hc (frame_setChan s (lower c) b ch4)
+      rw [hch]
+      show ChanRel s (some sc) (aget (aset b.channels (lower c) ch4) (lower c))
+      rw [aget_aset_self]
+      refine ⟨hb, ?_⟩
+      refine ⟨?_, ?_, ?_, ?_, ?_, ?_, ?_⟩
+      · intro x; rw [hv4.users]; exact hm.users x
+      · intro x; rw [hv4.ops]; exact hm.ops x
+      · intro x; rw [hv4.halfops]; exact hm.halfops x
+      · intro x; rw [hv4.voices]; exact hm.voices x
+      · rw [hv4.topic]; exact hm.topic
+      · intro m
+        rw [hv4.modes]
+        show aget (sc.modes.foldl (fun acc e => aset acc e.1 e.2) ch.modes) m = _
+        rw [foldl_aset_get _ _ hcw.modesNodup]
+        cases hg : aget sc.modes m with
+        | some v => rfl
+        | none => simp only; rw [hm.modes, hg]
+      · intro x; rw [hv4.bans]; exact hm.bans x
+    · have hb' : sc.has s.botKey = false := by simpa using hb
+      have hnone := bot_chan_none hc hch hb'
+      have hkey := hcw.key
+      rw [← hkey] at hnone
+      unfold Srv.modeIs
+      simp only [recvAll_cons, recvAll_nil, recv_emit, List.cons_append, List.nil_append]
+      rw [(late_replies_ignored hat sc.name hnone _).1, (late_replies_ignored hat sc.name hnone _).2.1]
+      exact hc
+  · exact hc
+
+theorem ban_lines_ignored {s : Srv} {b : Bot} (h : AtSrv s b) (sc : SChan) (hnone : aget b.channels (lower sc.name) = none)
+    (bans : List Str) :
+    b.recvAll (bans.map (fun m => emit s.cfg.server "367" [s.bot, sc.name, m, s.cfg.server, ['0']])) = b := by
+  induction bans with
+  | nil => rfl
+  | cons m ms ih =>
+    simp only [List.map_cons, recvAll_cons, recv_emit]
+    rw [(late_replies_ignored h sc.name hnone _).2.2]
+    exact ih
+
+theorem coupled_banlist {s : Srv} {b : Bot} (hw : SrvWF s) (hc : Coupled s b) (c : Str) :
+    Coupled (s.step (.banlist c)).1 (b.recvAll (s.step (.banlist c)).2) := by
+  simp only [Srv.step]
+  split
+  · rename_i sc hch
+    rw [Srv.chan_eq] at hch
+    have hcw := hw.chans _ _ hch
+    have hat : AtSrv s b := ⟨hw, hc.nick⟩
+    have hkey := hcw.key
+    unfold Srv.banList
+    simp only [recvAll_append]
+    by_cases hb : sc.has s.botKey = true
+    · obtain ⟨ch, hbc, hm⟩ := view_channel' hc hch hb
+      rw [ban_lines sc sc.bans hat (by rw [hkey]; exact hbc)]
+      obtain ⟨b1, hb1⟩ : ∃ b1, b1 = ({ b with channels := (aset b.channels (lower sc.name)
+          { ch with bans := sc.bans.foldl (fun acc m => sadd acc (lower m)) ch.bans }) } : Bot) := ⟨_, rfl⟩
+      rw [← hb1]
+      have h1 : AtSrv s b1 := by rw [hb1]; exact ⟨hw, hc.nick⟩
+      simp only [recvAll_cons, recvAll_nil, recv_emit]
+      rw [noop_line h1 "368".toList [sc.name, "End of channel ban list".toList] cmdOf_368]
+      subst hb1
+      rw [hkey]
+      apply coupled_of_frame hc (frame_setChan s (lower c) b _)
+      rw [hch]
+      show ChanRel s (some sc) (aget (aset b.channels (lower c) _) (lower c))
+      rw [aget_aset_self]
+      refine ⟨hb, ⟨hm.users, hm.ops, hm.halfops, hm.voices, hm.topic, hm.modes, ?_⟩⟩
+      intro x
+      show x ∈ sc.bans.foldl (fun acc m => sadd acc (lower m)) ch.bans ↔ _
+      rw [foldl_sadd_mem, hm.bans]; simp
+    · have hb' : sc.has s.botKey = false := by simpa using hb
+      have hnone := bot_chan_none hc hch hb'
+      rw [← hkey] at hnone
+      rw [ban_lines_ignored hat sc hnone]
+      simp only [recvAll_cons, recvAll_nil, recv_emit]
+      rw [noop_line hat "368".toList [sc.name, "End of channel ban list".toList] cmdOf_368]
+      exact hc
+  · exact hc
+
 /-- every action of the reference server keeps the bot's view coupled to the server state -/
 theorem coupled_step {s : Srv} {b : Bot} (hw : SrvWF s) (hc : Coupled s b) (a : Act) (ha : a.ok) :
     Coupled (s.step a).1 (b.recvAll (s.step a).2) := by
@@ -166,6 +280,8 @@ theorem coupled_step {s : Srv} {b : Bot} (hw : SrvWF s) (hc : Coupled s b) (a : 
   | chghost n i ho => exact coupled_chghost hw hc n i ho
   | names c => exact coupled_names hw hc c
   | who c => exact coupled_who hw hc c
+  | modeis c => exact coupled_modeis hw hc c
+  | banlist c => exact coupled_banlist hw hc c
   | reconnect => exact coupled_reconnect hw hc
 
 theorem coupled_init (cfg : Cfg) (hv : cfg.valid = true) : Coupled (Srv.init cfg) (Bot.init cfg.botNick cfg.botIdent) := by
